@@ -37,7 +37,7 @@ var c19domains = []string{"example.com", "ton.app", "a", "xn--e1afmkfd.xn--p1ai"
 
 type authExec struct {
 	w     *core.World
-	mode  int // 0 key, 1 error, 2 malformed stack, 3 short key, 4 exit code 11
+	mode  int // 0 key, 1 error, 2 malformed stack, 3 short key, 4 exit code 11, 5 -2^256 (needs 257 bits), 6 tiny int, 7 zero
 	key   []byte
 	delay time.Duration
 }
@@ -56,6 +56,14 @@ func (e *authExec) RunSmcMethodByID(ctx context.Context, accountID ton.AccountID
 		return 0, tlb.VmStack{{SumType: "VmStkInt", VmStkInt: tlb.Int257(*k)}}, nil
 	case 4:
 		return 11, nil, nil
+	case 5:
+		// the most negative TVM integer: legal on the wire, magnitude needs 33 bytes
+		k := new(big.Int).Neg(new(big.Int).Lsh(big.NewInt(1), 256))
+		return 0, tlb.VmStack{{SumType: "VmStkInt", VmStkInt: tlb.Int257(*k)}}, nil
+	case 6:
+		return 0, tlb.VmStack{{SumType: "VmStkTinyInt", VmStkTinyInt: 5}}, nil
+	case 7:
+		return 0, tlb.VmStack{{SumType: "VmStkInt", VmStkInt: tlb.Int257(*big.NewInt(0))}}, nil
 	}
 	k := new(big.Int).SetBytes(e.key)
 	return 0, tlb.VmStack{{SumType: "VmStkInt", VmStkInt: tlb.Int257(*k)}}, nil
@@ -165,7 +173,10 @@ func genC19(seed uint64, index int, tier string) *run.Plan {
 	if p.P["sign_delay_ms"] < 0 {
 		p.P["sign_delay_ms"] = 0
 	}
-	p.P["exec"] = []int{0, 0, 0, 1, 1, 2, 3, 4}[g.Intn(8)]
+	p.P["exec"] = []int{0, 0, 0, 0, 1, 1, 2, 3, 4, 5, 6, 7}[g.Intn(12)]
+	// how the application passes the payload and domain checks: the server's own methods, or wrappers that
+	// follow the (verdict, nil) convention StaticDomain uses / report a mismatch as an error
+	p.P["checker"] = []int{0, 0, 1, 2}[g.Intn(4)]
 	p.P["exec_key"] = g.Intn(3) % 2 // 0: the wallet's key, 1: another key
 	if g.Intn(5) == 0 {
 		p.P["exec_delay_ms"] = []int{1, 500, 3000}[g.Intn(3)]
@@ -505,7 +516,20 @@ func execC19(t *testing.T, w *core.World, p *run.Plan, r *run.Result) {
 							}
 						}()
 						s := servers[op.A%len(servers)]
-						v.ok, v.key, v.err = s.srv.CheckProof(context.Background(), &pr, s.srv.CheckPayload, tonconnect.StaticDomain(domain))
+						checkPayload, checkDomain := s.srv.CheckPayload, (func(string) (bool, error))(tonconnect.StaticDomain(domain))
+						switch p.Get("checker", 0) {
+						case 1:
+							srv := s.srv
+							checkPayload = func(pl string) (bool, error) { ok, _ := srv.CheckPayload(pl); return ok, nil }
+						case 2:
+							checkDomain = func(d string) (bool, error) {
+								if d != domain {
+									return false, errors.New("authsim: unknown domain")
+								}
+								return true, nil
+							}
+						}
+						v.ok, v.key, v.err = s.srv.CheckProof(context.Background(), &pr, checkPayload, checkDomain)
 					}()
 					vmu.Lock()
 					verdicts = append(verdicts, v)
